@@ -12,7 +12,9 @@ Guards(e) ==
      <<"G_C19_PrivateFilesRestricted", \A i \in DOMAIN e.out.files :
             e.out.files[i].private => e.out.files[i].mode = (IF e.out.files[i].dir THEN 448 ELSE 384)>>,
      <<"G_C19_OneCertPerLabel", e.out.duplicateLabels = 0>>,
-     <<"G_C19_AgentGetsCerts", (e.case.agent /\ e.out.ok) => Len(e.out.agentLabels) >= 2>>}
+     <<"G_C19_AgentGetsCerts", (e.case.agent /\ e.out.ok) => Len(e.out.agentLabels) >= 2>>,
+     \* replacing is by label: what another tool put into the agent stays
+     <<"G_C19_OtherLabelsKept", e.out.otherToolKept>>}
 TInit == Init /\ l = 1 /\ viol = {}
 TNext == /\ l <= Len(TraceLog)
          /\ LET e == TraceLog[l] bad == Failed(Guards(e)) IN
